@@ -5,7 +5,7 @@ CONSTANTS
   Anns <- MAnns
   Depth = 7
   Record = FALSE
-INVARIANTS TypeOK SetIdCounts OneForcedPerFork AppliedWhenEffective NoPendingOnAbandoned NoLoss PendingNotOverdue UniqueApplicable SetIdAtMonotone
+INVARIANTS TypeOK SetIdCounts OneForcedPerFork AppliedWhenEffective NoPendingOnAbandoned NoLoss PendingNotOverdue UniqueApplicable SetIdAtMonotone DigestLayerLaw
 PROPERTY SetIdStep
 VIEW View
 CHECK_DEADLOCK FALSE
